@@ -29,6 +29,10 @@ Inductive case :=
      calls ValidateDecryptionKeysBasic, then (on Accept) ValidateDecryptionKeysSignatures *)
 | CKeyper (id : N) (lookup : option keyperset) (m : keysmsg)
           (signers : list N) (sigs : list csig) (obs : verdict)
+  (* the keyper's real DecryptionKeysHandler.ValidateMessage over the (fake) database whose
+     keyper_set table holds [db] *)
+| CKeyperDB (id : N) (db : list (Z * keyperset)) (m : keysmsg)
+            (signers : list N) (sigs : list csig) (obs : verdict)
   (* gnosisaccessnode.DecryptionKeysHandler.ValidateMessage over an in-memory Storage *)
 | CAccess (id : N) (st : an_state) (m : keysmsg)
           (signers : list N) (sigs : list csig) (obs : verdict).
@@ -41,6 +45,8 @@ Definition check_case (c : case) : list N :=
       if verdict_eqb (validate_basic m) obs then [] else [id]
   | CKeyper id lk m signers sigs obs =>
       if verdict_eqb (c_keyper_validate_gnosis lk m signers sigs) obs then [] else [id]
+  | CKeyperDB id db m signers sigs obs =>
+      if verdict_eqb (c_keyper_validate_gnosis_db db m signers sigs) obs then [] else [id]
   | CAccess id st m signers sigs obs =>
       if verdict_eqb (c_an_validate st m signers sigs) obs then [] else [id]
   end.
